@@ -16,7 +16,7 @@ def classify(line):
 CFG = dict(
     imports=["From Verif.Common Require Import Prefix.", "From Verif.C39 Require Import Model Spec Conditions Cases.", "Open Scope N_scope."],
     checker="check_xcase",
-    n=dict(quick=160, thorough=8000),
+    n=dict(quick=160, thorough=1920),
     shard=25,
     deps=["C36"],
     classify=classify,
